@@ -1161,6 +1161,9 @@ func main() {
 			"of 1 s with the cause placed 500 ms away from every token, and free profiles (any spacing, up to 30 instances) with the cause anywhere; thorough adds the full " +
 			"grid of 12 profile shapes x 6 causes x 4 positions, 40 bursts of up to 200 instances and 150 engines of two pools. Also: nested composites (random bracketing of " +
 			"the flat profiles), fractional rates, an instance that cannot be created at each of the three points of newInstance (schedule, gun, Bind), engines of 2-3 " +
-			"pools. non-trivial = the engine ran; distinct = distinct input line",
+			"pools. Round 3: shots per instance against the RPS profile (composite / unlimited / per-instance RPS profiles, ammo running out first), guns whose Close " +
+			"fails or that panic, providers / aggregators that return early, fail, or answer the end of the run with the context error, a pool that cannot begin " +
+			"(shared RPS schedule / warm-up gun), two creation failures, more instances than the result buffer, exact fractional rates, InstanceFinish. " +
+			"non-trivial = the engine ran; distinct = distinct input line",
 	})
 }
